@@ -212,7 +212,7 @@ def install(ex, db, w_holder):
                 return ready(ok(okval))
             return EnvFuture(kind, respond)
         return f
-    ex.model_path('zksync_consensus_engine::manager::EngineManager::wait_until_persisted', simple('wait_until_persisted', Opaque('store_state')))
+    ex.model_path('zksync_consensus_engine::manager::EngineManager::wait_until_persisted', simple('wait_until_persisted', Opaque('store_state'), log=True))
     ex.model_path('zksync_consensus_engine::manager::EngineManager::queue_block', simple('queue_block', UNIT, log=True))
 
     def verify_payload(e, n, a):
